@@ -31,7 +31,8 @@ BSInit == /\ sent = [d \in Dirs |-> 0]
 (* successor triples <<sent, delivered, status>> of one direction (stuttering included) *)
 Succ(s, dl, st) ==
   {<<s, dl, st>>}
-  \cup (IF st = "open" THEN {<<s + k, dl, st>> : k \in {k \in 1..MaxChunk : s + k <= MaxLen}} ELSE {})          \* write
+  \cup (IF st \in {"open", "err"}                                                                                 \* write (the writer need
+        THEN {<<s + k, dl, st>> : k \in {k \in 1..MaxChunk : s + k <= MaxLen}} ELSE {})                             \*  not know the reader failed)
   \cup (IF st \in {"open", "closing"}
         THEN {<<s, dl \o [i \in 1..k |-> Len(dl) + i], st>> : k \in {k \in 1..MaxChunk : Len(dl) + k <= s}}    \* deliver
         ELSE {})
